@@ -49,7 +49,15 @@ MANIFEST = dict(
 THEOREMS = ["C14_int", "C14_int_digits", "C14_int_canonical", "C14_float", "C14_literal_is_number_token", "C14_integer_is_number_token", "C14_round_sig_correct", "C14_post", "C14_special"]
 
 SEPS = ["_", ",", " ", "'", "", ".", "\u2009", "\u00a0", "__", "abc", "12345678", "\u2009\u2009\u2009",
-        "123456789", "0", "-", "e", "x_x", "\u066c", "\u00b7", "\u2009\u2009\u2009\u2009"]
+        "123456789", "0", "-", "e", "x_x", "\u066c", "\u00b7", "\u2009\u2009\u2009\u2009",
+        # separators of several DIFFERENT characters (not palindromes): the order of their characters matters
+        ", ", "_'", "' ", "xy", "\u2009_", " _'", "_ ,'", "\u00b7\u2009"]
+SEP_ALPHABET = "_ ,'xy:\u2009\u00a0\u00b7\u066c"       # harmless: nothing from the literal alphabet
+
+
+def random_separator(rng):
+    """a separator of 2..5 characters; most are not palindromes"""
+    return "".join(rng.choice(SEP_ALPHABET) for _ in range(rng.randrange(2, 6)))
 
 
 def bits_of(x):
@@ -261,7 +269,7 @@ def f64_classes(rng, n_random):
 
 def settings(rng):
     r = rng.random()
-    sep = "_" if r < 0.35 else rng.choice(SEPS)
+    sep = "_" if r < 0.35 else random_separator(rng) if r < 0.45 else rng.choice(SEPS)
     thr = 6 if rng.random() < 0.3 else rng.choice([0, 1, 2, 3, 4, 5, 7, 9, 12, 15, 16, 17, 20, 400])
     sig = 6 if rng.random() < 0.3 else rng.choice(list(range(0, 20)) + [30, 100, 255, 256, 257, 300, 512, 1000])
     return thr, sig, sep
@@ -346,7 +354,8 @@ def run(chk):
         nd = chk.rng.randrange(1, 17)
         z = chk.rng.randrange(10 ** (nd - 1), min(10 ** nd, 2 ** 53))
         thr = max(0, nd + chk.rng.choice([-1, 0, 0, 1, 2]))
-        cases.append((bits_of(float(z if chk.rng.random() < 0.7 else -z)), thr, 6, chk.rng.choice(SEPS)))
+        cases.append((bits_of(float(z if chk.rng.random() < 0.7 else -z)), thr, 6,
+                      random_separator(chk.rng) if chk.rng.random() < 0.2 else chk.rng.choice(SEPS)))
     seen = set()
     cases = [c for c in cases if not (c in seen or seen.add(c))]
 
